@@ -927,7 +927,36 @@ func c19Run(c c19Case, root string, r *c19Result) {
 
 	// ---- the logger under test
 	// spell: the same file or directory, written the way a configuration might write it
+	if c.Sp == "bare" || c.Sp == "dotbare" {
+		// the log is named by a bare file name ("app.log") or "./app.log" (logx modes: Path "." or
+		// "./") in the process's working directory. The working directory is process-wide: cases
+		// run one after the other in this process and it is restored when the case ends (after
+		// the writers have been closed: this defer is registered before theirs).
+		wdTo := e.dir
+		if c.Api == "pkg" && c.Vol != "" && c.Mode != "" {
+			wdTo = volBase
+		}
+		saved, err := os.Getwd()
+		if err == nil {
+			if err = os.MkdirAll(wdTo, 0o755); err == nil {
+				err = os.Chdir(wdTo)
+			}
+		}
+		if err != nil {
+			failf("setup: %v", err)
+			return
+		}
+		defer os.Chdir(saved)
+	}
 	spell := func(dir, base string) string {
+		switch {
+		case c.Sp == "bare" && base == "":
+			return "."
+		case c.Sp == "bare":
+			return base
+		case c.Sp == "dotbare":
+			return "./" + base
+		}
 		p := dir
 		if c.Sp == "rel" {
 			if wd, err := os.Getwd(); err == nil {
@@ -2083,7 +2112,7 @@ var c19NamePieces = []string{"a", "b", "log", "svc", "x1", "%s", "%d", "%20", "%
 	"\\", "\\Z", "'", "\"", "-", ".", "_", "é", "日本", "😀", "~", "&", "(", ")", ";", ":", "=", "+", ","}
 
 var c19NameCurated = []string{"order%20service", "100%", "%s%d", "a b", "#1", "a*b", "q?", "a[1]", "[", "a]b", "{x}", "$HOME", "back\\Slash",
-	"it's", "\"q\"", "-rf", ".hidden", "trail.", "日本語", "naïve", "%!s(MISSING)", "a%", "*", "?x", "[a-z]og", "bad\uE0FFutf8", "\uE0FF"}
+	"it's", "\"q\"", "-rf", "+app", " app", "!x", ",v", "(1)", "&co", ".hidden", "trail.", "日本語", "naïve", "%!s(MISSING)", "a%", "*", "?x", "[a-z]og", "bad\uE0FFutf8", "\uE0FF"}
 
 // c19LongDelim: with it the backup name of access.log / a.b.log exceeds NAME_MAX, that of svc does not
 var c19LongDelim = "-" + strings.Repeat("=", 235)
@@ -2185,8 +2214,8 @@ func c19GenMode(rt *rapid.T, logx, pkg bool) c19Case {
 		c.Sib = c19Witness(c.Dir)
 	}
 	c.T0 = rapid.SampledFrom([]int64{0, 0, 1, 3600, 43200, 86398, 86399}).Draw(rt, "t0")
-	if d := rapid.IntRange(0, 99).Draw(rt, "spelling"); d >= 50 && d < 75 {
-		c.Sp = rapid.SampledFrom([]string{"rel", "dslash", "dotmid", "dirdot"}).Draw(rt, "sp")
+	if d := rapid.IntRange(0, 99).Draw(rt, "spelling"); d >= 50 && d < 85 {
+		c.Sp = rapid.SampledFrom([]string{"rel", "dslash", "dotmid", "dirdot", "bare", "bare", "dotbare", "dotbare"}).Draw(rt, "sp")
 	}
 	c.StepWait = rapid.Bool().Draw(rt, "stepWait")
 	if logx { // newFileWriter fixes these
